@@ -390,6 +390,12 @@ pub open spec fn step_transfer(s: Raw, t: Raw, tm: TransferMsg, amount: Amount) 
 @ensures C12.transfer_emits_one_packet
     r is Ok ==> r->Ok_0.messages@.len() == 1 && is_transfer_packet(r->Ok_0.messages@[0], msg.channel@, amount, sender@, msg,
         env.block.time.ns() + (match msg.timeout { Some(t) => t, None => config_of(old(deps.storage).view())->Some_0.default_timeout }) * 1_000_000_000)
+@ensures C18.an_allowed_transfer_is_accepted C12
+    amount_of(amount).0 > 0 && amount_of(amount).0 <= u64::MAX && chan_info(old(deps.storage).view(), msg.channel@) && config_of(old(deps.storage).view()) is Some
+        && (amount is Cw20 ==> addr_ok(amount->Cw20_0.address@)
+            && (config_of(old(deps.storage).view())->Some_0.default_gas_limit is Some || allow_of(old(deps.storage).view(), amount->Cw20_0.address@) is Some))
+        && (!old(deps.storage).view().contains_key(cskey(msg.channel@, denom_of(amount))) || cs_of(old(deps.storage).view(), msg.channel@, denom_of(amount)) is Some)
+        ==> r is Ok
 @prefix
     broadcast use ics_axioms, string_conv;
     proof { lemma_ns6(); }
